@@ -1,6 +1,7 @@
 import SaphyrModel.Sc.Scan3
 import SaphyrModel.Proofs.BlockLitBreaks
 import SaphyrModel.Proofs.BlockLitToken
+import SaphyrModel.Proofs.BlockFold
 /-! # C14 — Line-break style does not change the parse (component theorems)
 
 The character tests the scanner applies cannot tell LF from CR, and the three break primitives
@@ -134,5 +135,43 @@ theorem literal_block_token_break_blind (sm1 sm2 : Marker) (hd : Hdr) (ind : Nat
     by rw [y2, q2], by rw [y3, q3, hline, hlen], by rw [y4, q4]⟩
   rw [x1, z1]
   simp only [joinB, hsame]
+
+open SaphyrModel.C14L SaphyrModel.C05 SaphyrModel.C05T SaphyrModel.C05F in
+/-- the same for the folded style (content lines that do not start with a blank): same token — the lines joined
+    by single spaces — under every spelling of every line break -/
+theorem folded_block_token_break_blind (sm1 sm2 : Marker) (hd : Hdr) (ind : Nat) (hind : ind ≠ 0) (tail : Str)
+    (ht1 : tail.headD '\x00' ≠ ' ') (ht2 : isBreak (tail.headD '\x00') = false)
+    (l : Str) (a1 a2 b1 b2 : Brk) (ls1 ls2 : List (Str × Brk)) (hsame : ls1.map Prod.fst = ls2.map Prod.fst)
+    (hl : FoldLine l) (hls : ∀ p ∈ ls1, FoldLine p.1)
+    (u1 u2 : Sc) (hk1 : u1.inp.kind = .str) (hk2 : u2.inp.kind = .str) (hline : u1.mark.line = u2.mark.line)
+    (hind12 : u1.indent = u2.indent) (hI : (u1.indent + 1).toNat ≤ ind)
+    (hi1 : u1.inp.iter = hd.txt ++ (a1.txt ++ (List.replicate ind ' ' ++ (l ++ (b1.txt ++ restLinesB ind ls1 tail)))))
+    (hi2 : u2.inp.iter = hd.txt ++ (a2.txt ++ (List.replicate ind ' ' ++ (l ++ (b2.txt ++ restLinesB ind ls2 tail)))))
+    (t1 t2 : Token) (v1 v2 : Sc)
+    (h1 : scanBlockScalarBody false sm1 u1 = .ok (t1, v1)) (h2 : scanBlockScalarBody false sm2 u2 = .ok (t2, v2)) :
+    t1.ty = t2.ty ∧ t1.span.start.line = t2.span.start.line ∧ t1.span.start.col = t2.span.start.col ∧
+    t1.span.stop.line = t2.span.stop.line ∧ t1.span.stop.col = t2.span.stop.col ∧
+    v1.inp.iter = v2.inp.iter ∧ v1.mark.line = v2.mark.line ∧ v1.mark.col = v2.mark.col := by
+  have hls2 : ∀ p ∈ ls2, FoldLine p.1 := by
+    intro p hp
+    have : p.1 ∈ ls2.map Prod.fst := List.mem_map_of_mem hp
+    rw [← hsame] at this
+    obtain ⟨q, hq, hqe⟩ := List.mem_map.mp this
+    rw [← hqe]; exact hls q hq
+  have hlen : ls1.length = ls2.length := by
+    have := congrArg List.length hsame
+    simpa using this
+  rcases folded_block_token sm1 hd a1 ind hind tail ht1 ht2 ls1 l b1 hl hls u1 u1.mark.line u1.mark.col u1.indent _ hI
+      ⟨hk1, hi1, rfl, rfl, rfl, rfl⟩ with ⟨p, hp⟩ | ⟨tok1, w1, e1, ⟨x1, x2, x3, x4, x5, _, _⟩, _, y2, y3, y4, _⟩
+  · rw [hp] at h1; cases h1
+  rcases folded_block_token sm2 hd a2 ind hind tail ht1 ht2 ls2 l b2 hl hls2 u2 u2.mark.line u2.mark.col u2.indent _
+      (by rw [← hind12]; exact hI) ⟨hk2, hi2, rfl, rfl, rfl, rfl⟩ with ⟨p, hp⟩ | ⟨tok2, w2, e2, ⟨z1, z2, z3, z4, z5, _, _⟩, _, q2, q3, q4, _⟩
+  · rw [hp] at h2; cases h2
+  rw [e1] at h1; rw [e2] at h2
+  cases h1; cases h2
+  refine ⟨?_, by rw [x2, z2, hline], by rw [x3, z3], by rw [x4, z4, hline, hlen], by rw [x5, z5],
+    by rw [y2, q2], by rw [y3, q3, hline, hlen], by rw [y4, q4]⟩
+  rw [x1, z1]
+  simp only [hsame]
 
 end SaphyrModel.C14
